@@ -42,7 +42,8 @@ class Sub:
     kind 'enum': enum(tier) -> list of JSON-able cases (enumerated, sharded by index)."""
 
     def __init__(self, name, run_case, strategy=None, enum=None, examples=(200, 2000), rule="",
-                 shards=(16, 16), exhaustive=False, timeout=(600, 7200), isolate=True, tiers=("quick", "thorough")):
+                 shards=(16, 16), exhaustive=False, timeout=(600, 7200), isolate=True, tiers=("quick", "thorough"), shrink=True):
+        self.shrink = shrink
         self.name = name
         self.run_case = run_case
         self.strategy = strategy
@@ -205,7 +206,7 @@ def run_shard(prop, sub, shard, nshards, tier, seed, kkeys):
     @hypothesis.seed(derive_seed(seed, prop, sub.name, shard))
     @settings(max_examples=n, database=None, deadline=None, derandomize=False,
               report_multiple_bugs=False, suppress_health_check=list(HealthCheck),
-              phases=[Phase.generate, Phase.shrink])
+              phases=[Phase.generate, Phase.shrink] if sub.shrink else [Phase.generate])
     @given(sub.strategy(tier))
     def test(case):
         if body(case):
